@@ -194,9 +194,78 @@ def valid_case(c):
                 return False
         if "*" in cols or "zz#" in cols:
             return False
+        if c.get("wide") is not None and not valid_wide(c):
+            return False
         return True
     except Exception:
         return False
+
+
+# ---- wide frames (seventh pass).  `"wide": {"width": W, "at": [p0, p1, …]}`: the frame handed to the implementation
+# has W columns; column i of the case stands at position `at[i]`, every other position holds a filler column
+# `pad<j>` (texts that differ from row to row at even positions, nulls and numbers at odd ones: a key or a value read
+# from a neighbouring / wrapped-around position gives another partition or another fold).  The reference
+# partition-and-fold reads the key and value columns BY NAME, so the mirror and the Lean models are asked about the
+# narrow case: the statement quantifies over all frames, and nothing in it depends on how many other columns a frame
+# has or where a column stands.
+PAD = "pad%d"
+WIDE_MAX = 70000
+# positions at and around the limits of small integer containers (int8, uint8, int16, uint16)
+WIDE_LIMITS = (0, 1, 2, 3, 4, 5, 127, 128, 255, 256, 32767, 32768, 65535, 65536)
+# beyond this width only backings that are linear in the width (select() looks every name up in a list: 15 s at 32769)
+WIDE_SLOW = 1000
+WIDE_FAST_BACKINGS = ("list", "gen", "dicts", "decoy")
+
+
+def valid_wide(c):
+    w, cols = c["wide"], c["columns"]
+    if not (isinstance(w, dict) and set(w) == {"width", "at"}):
+        return False
+    width, at = w["width"], w["at"]
+    if not (isinstance(width, int) and not isinstance(width, bool) and isinstance(at, list)):
+        return False
+    if len(at) != len(cols) or len(set(at)) != len(at) or width > WIDE_MAX:
+        return False
+    if not all(isinstance(p, int) and not isinstance(p, bool) and 0 <= p < width for p in at):
+        return False
+    if any(x.startswith("pad") and x[3:].isdigit() for x in cols):
+        return False
+    if any(isinstance(k, str) and k.startswith("pad") and k[3:].isdigit() for k in c.get("keys", [])):
+        return False  # a key name that is not a column of the case must not be a column of the wide frame either
+    if width > WIDE_SLOW and set(c.get("backings", ["list"])) - set(WIDE_FAST_BACKINGS):
+        return False
+    return True
+
+
+def wide_names(case):
+    """The column names of the frame the implementation is given."""
+    w = case.get("wide")
+    if not w:
+        return list(case["columns"])
+    names = [PAD % j for j in range(w["width"])]
+    for c, p in zip(case["columns"], w["at"]):
+        names[p] = c
+    return names
+
+
+def _pad_cell(i, j):
+    if j % 2 == 0:
+        return "p%d.%d" % (j, i)
+    return None if (i + j) % 4 == 1 else i * 1000 + j
+
+
+def widen_rows(case, rows, start=0):
+    """The rows as the wide frame holds them (row number `start + n` decides the filler cells)."""
+    w = case.get("wide")
+    if not w:
+        return rows
+    out = []
+    for i, r in enumerate(rows, start):
+        cells = [_pad_cell(i, j) for j in range(w["width"])]
+        for p, x in zip(w["at"], r):
+            cells[p] = x
+        out.append(tuple(cells))
+    return out
 
 
 def same_key(case):
@@ -279,8 +348,8 @@ def fresh(v):
 def _frame(case, backing):
     from orso import DataFrame
 
-    rows = [tuple(fresh(x) for x in r) for r in actual_rows(case)]
-    cols = list(case["columns"])
+    rows = widen_rows(case, [tuple(fresh(x) for x in r) for r in actual_rows(case)])
+    cols = wide_names(case)
     if backing == "gen":
         return DataFrame(rows=(r for r in rows), schema=cols)
     if backing in ("select", "genselect"):
@@ -412,7 +481,7 @@ def run_impl(case, backing="list"):
 
 # ---- sequences of calls on one (or two) GroupBy objects of one frame
 
-SUB_KEYS = ("columns", "vcols", "rows", "scale", "mixed", "vkind", "negzero", "keq")
+SUB_KEYS = ("columns", "vcols", "rows", "scale", "mixed", "vkind", "negzero", "keq", "wide")
 # uses of the frame itself between two grouping calls; none of them may change any later result
 NOOPS = ("len", "rowcount", "peek")
 # ... and a mutation of the frame between two calls: `df.append(row)`.  The GroupBy objects hold a reference
@@ -551,7 +620,8 @@ def run_impl_seq(case, backing="list"):
                     else:
                         _edit_in_place(args[g], ed, None)
                 elif el["op"] == APPEND:
-                    df.append(dict(zip(case["columns"], [fresh(x) for x in actual_rows(dict(case, rows=[el["row"]]))[0]])))
+                    new = [fresh(x) for x in actual_rows(dict(case, rows=[el["row"]]))[0]]
+                    df.append(dict(zip(wide_names(case), widen_rows(case, [new], start=1000 + len(out))[0])))
                 elif el["op"] == "len":
                     len(df)
                 elif el["op"] == "rowcount":
@@ -1492,6 +1562,7 @@ def _shrink(c, still, budget):
             return still(x)
         except Exception:  # noqa: BLE001
             return False
+    c = _shrink_wide(c, ok)
     progress = len(c["rows"]) > 40
     while progress and len(c["rows"]) > 8:
         progress = False
@@ -1502,7 +1573,51 @@ def _shrink(c, still, budget):
             if ok(c2):
                 c, progress = c2, True
                 break
-    return shrink(c, still, budget=budget if len(c["rows"]) <= 60 else 40)
+    return _shrink_wide(shrink(c, still, budget=budget if len(c["rows"]) <= 60 else 40), ok)
+
+
+def _drop_column(c, i):
+    name = c["columns"][i]
+    c2 = dict(c, columns=c["columns"][:i] + c["columns"][i + 1:], vcols=[v for v in c["vcols"] if v != name],
+              rows=[r[:i] + r[i + 1:] for r in c["rows"]])
+    if c.get("wide"):
+        c2["wide"] = {"width": c["wide"]["width"], "at": c["wide"]["at"][:i] + c["wide"]["at"][i + 1:]}
+    if "seq" in c:
+        c2["seq"] = [dict(el, row=el["row"][:i] + el["row"][i + 1:]) if el.get("op") == APPEND else el for el in c["seq"]]
+    return c2
+
+
+def _shrink_wide(c, ok):
+    """A wide frame is shrunk by its own moves first (the generic shrinker walks a position down one by one, and cannot
+    drop a column together with its position): no wide frame at all; fewer columns; every position at the smallest
+    limit (`WIDE_LIMITS`) at which the input still fails; the narrowest frame that holds the positions."""
+    if not c.get("wide"):
+        return c
+    c2 = {k: v for k, v in c.items() if k != "wide"}
+    if ok(c2):
+        return c2
+    for i in reversed(range(len(c["columns"]))):
+        if len(c["columns"]) > 1:
+            c2 = _drop_column(c, i)
+            if ok(c2):
+                c = c2
+    for i in range(len(c["columns"])):
+        at, width = c["wide"]["at"], c["wide"]["width"]
+        for p in WIDE_LIMITS:
+            if p >= at[i]:
+                break
+            if p in at:
+                continue
+            c2 = dict(c, wide={"width": width, "at": at[:i] + [p] + at[i + 1:]})
+            if ok(c2):
+                c = c2
+                break
+    at, width = c["wide"]["at"], c["wide"]["width"]
+    if max(at) + 1 < width:
+        c2 = dict(c, wide={"width": max(at) + 1, "at": at})
+        if ok(c2):
+            c = c2
+    return c
 
 
 def _plainest(c_min, still):
@@ -2059,6 +2174,84 @@ def observe_outside_domain(ctx):
     obs("column-not-in-frame-COUNT", lambda: "counts-rows" if agg([("a", 1), ("a", None)], [("COUNT", "nope")])[0][0] == 2 else "other")
 
 
+WIDE_ROWS = [[-1, "a", 1, 5], [-2, "b", 2, None], [-1, "a", None, 7], [-1, "b", 4, None], [-2, "b", None, None], [-1, "a", 6, 1]]
+WIDE_REQS = [[["COUNT", "*"], ["SUM", "v"]], ALL_SIX, [["MAX", "w"], ["COUNT", "v"], ["AVG", "w"]], [["MIN", "w"]]]
+WIDE_WIDTHS = (129, 257, 300)
+WIDE_HUGE = (32769, 65537)
+
+
+def wide_cases(ctx):
+    """Deterministic: few rows, many columns.  The columns k, j (keys) and v, w (values) stand at every choice of
+    positions from {0, 127, 128, 255, 256, width-1} (huge widths: also 32767, 32768, 65535, 65536) — one column at a
+    limit and the others at the start, all four around one limit, keys past it and values before it and the other
+    way round — for one- and two-column keys, every backing (huge widths: list, generator, dictionaries), single
+    calls, groups(), the wrappers, and sessions (two objects; a row appended between two calls)."""
+    cols = ["k", "j", "v", "w"]
+    n = 0
+
+    def case(width, at, keys, reqs, backings, **kw):
+        c = {"columns": list(cols), "vcols": ["v", "w"], "keys": list(keys), "rows": [list(r) for r in WIDE_ROWS],
+             "reqs": [list(q) for q in reqs], "scale": 1, "backings": list(backings), "wide": {"width": width, "at": list(at)}}
+        c.update(kw)
+        return c
+
+    def layouts(width, marks):
+        marks = sorted({m for m in marks if 0 <= m < width})
+        seen = []
+        # one column at a mark, the others in the first places
+        for i in range(4):
+            for m in marks:
+                rest = [p for p in range(4) if p != m][:3]
+                at = rest[:i] + [m] + rest[i:]
+                seen.append(at)
+        # all four around one mark, in both orders
+        for m in marks:
+            lo = min(max(m - 1, 0), width - 4)
+            seen.append([lo, lo + 1, lo + 2, lo + 3])
+            seen.append([lo + 3, lo + 2, lo + 1, lo])
+        # keys at the two highest marks and values at the two lowest, and the other way round
+        if len(marks) >= 4:
+            seen.append([marks[-1], marks[-2], marks[0], marks[1]])
+            seen.append([marks[0], marks[1], marks[-1], marks[-2]])
+            seen.append([marks[-2], marks[0], marks[-1], marks[1]])
+        out = []
+        for at in seen:
+            if len(set(at)) == 4 and at not in out:
+                out.append(at)
+        return out
+
+    all_backings = [["list", "gen"], ["dicts", "select"], ["filter", "take"], ["genselect", "schema"], ["list", "decoy"]]
+    for width in WIDE_WIDTHS:
+        for at in layouts(width, (0, 127, 128, 255, 256, width - 1)):
+            for keys in (["k"], ["k", "j"], ["j", "k"]):
+                n += 1
+                bk = all_backings[n % len(all_backings)]
+                yield case(width, at, keys, WIDE_REQS[n % len(WIDE_REQS)], bk)
+                if n % 3 == 0:
+                    yield case(width, at, keys, [], bk[:1], op="groups")
+                if n % 5 == 0:
+                    yield case(width, at, keys, [["SUM", "v"], ["SUM", "w"]], ["list"], via="sum")
+                if n % 7 == 0:
+                    yield case(width, at, keys, [["COUNT", "*"]], ["gen"], via="count")
+                if n % 4 == 0:
+                    c = case(width, at, keys, [], bk[:1])
+                    c.pop("keys"), c.pop("reqs")
+                    c["gbs"] = [list(keys), ["j"]]
+                    c["seq"] = [{"op": "aggregate", "gb": 0, "reqs": [["SUM", "v"], ["COUNT", "*"]]},
+                                {"op": APPEND, "row": [-2, "a", 9, 9]},
+                                {"op": "aggregate", "gb": 1, "reqs": [["MAX", "w"], ["COUNT", "v"]]},
+                                {"op": "groups", "gb": 0}]
+                    yield c
+    huge = WIDE_HUGE if ctx.tier == "thorough" or ctx.time_left() > 30 else ()
+    for width in huge:
+        for i, at in enumerate(layouts(width, (0, 32767, 32768, 65535, 65536, width - 1))):
+            if ctx.tier != "thorough" and i % 3 and not (at[0] >= 32767 and max(at[1:]) < 4):
+                continue  # quick tier: a third of the layouts, and every one with the key column k alone at a limit
+            n += 1
+            yield case(width, at, (["k"], ["k", "j"], ["j", "k"])[n % 3], WIDE_REQS[n % 2], (["list"], ["gen"], ["dicts"])[n % 3],
+                       rows=[list(r) for r in WIDE_ROWS[:3]])
+
+
 def corpus_cases():
     out = []
     for p in sorted(glob.glob(os.path.join(VERIF, "corpus", "C12", "*.json"))):
@@ -2122,6 +2315,22 @@ def run(ctx):
     evaluate(ctx, corpus_cases())
     observe_outside_domain(ctx)
     scope = []
+    # E0: wide frames — the key and value columns at and past the limits of small integer containers
+    wc = list(wide_cases(ctx))
+    evaluate(ctx, wc)
+    for c in wc:
+        ctx.hit("wide:width:%d" % c["wide"]["width"])
+        keys = c["keys"] if "keys" in c else c["gbs"][0]
+        for name, p in zip(c["columns"], c["wide"]["at"]):
+            kind = "key" if name in keys else "value"
+            ctx.hit("wide:%s-column-at:%s" % (kind, p if p in WIDE_LIMITS else "width-1" if p == c["wide"]["width"] - 1 else "near-a-limit"))
+        ctx.hit("wide:keys:%d" % len(keys))
+    scope.append("wide frames: %d rows, widths %s, the key columns k, j and the value columns v, w at positions from {0, 127, 128, "
+                 "255, 256, 32767, 32768, 65535, 65536, width-1} (one column at a limit, all four around a limit in both orders, "
+                 "keys past and values before a limit and the other way round), one- and two-column keys, every backing "
+                 "(widths past %d: list, generator, dictionaries), aggregate / groups / wrappers / sessions with an append "
+                 "(%d cases)" % (len(WIDE_ROWS), sorted({c["wide"]["width"] for c in wc}), WIDE_SLOW, len(wc)))
+    secs["E0"] = round(time.time() - t0, 1)
     # E1: every frame of 0..n rows over a 12-row alphabet (colliding keys, nulls, all-null groups),
     #     four request lists, all three backings
     n1 = ctx.scale(3, 4)
